@@ -42,3 +42,9 @@ add("C12", "exploration", "model-based property-based testing over public-API ca
 add("C13", "exploration", "property-based testing with counter presets (hooks) at varint width boundaries and ack-list maximising receive patterns; composition with the netcode layer",
     "Every packet the message layer emits under generated workloads (bursts of tiny messages, threshold-sized messages, slices, up to 64 widely spaced ack ranges, 8-byte ids/sequences) must be <= 1300 bytes and serialise; each one is carried through generate_payload_packet of a live netcode pair with sequences of every width and must yield a datagram <= 1400 bytes.",
     SIMNOTE, "DESIGN.md 4/C13")
+
+NETNOTE = NOTE_COMMON + " Authenticity of a datagram is decided by provenance (the harness watched every genuine datagram being produced and knows every key), never by asking the code under test. renetcode's random source is seeded through the verif_hooks RNG hook so cases replay bit-identically."
+
+add("C07", "exploration", "property-based testing/fuzzing of the datagram and token parsers inside a staged live server (all protocol states at once) with a before/after state-snapshot oracle; exhaustive prefix x length grid",
+    "Mutated, replayed, misplaced, boundary-shaped and random datagrams are presented from every address class and to clients in every state; no call may unwind and a non-authentic datagram must leave every observable of server and clients unchanged; genuine traffic must still work afterwards. Token bytes are fuzzed through read -> client construction -> update.",
+    NETNOTE, "DESIGN.md 4/C07")
